@@ -47,7 +47,7 @@ CLASSES = G.SHAPES + ["general_factor", "no_state_dir", "user_entries", "budget_
 FLOORS = {
     "quick": {
         "events": {"update_for_epoch": 5000, "continue_training": 8000, "controller_rebuilt": 3000,
-                   "assert:decision": 1000, "assert:lr-rule": 1000, "assert:lr-in-optimizer": 1000,
+                   "assert:decision": 1000, "assert:lr-rule": 1000, "assert:lr-in-optimizer": 1000, "assert:lr-written-into-optimizer": 300,
                    "assert:restart-decision": 4000, "assert:restart-lr": 4000, "assert:restart-csv": 1000,
                    "assert:restart-history": 1500, "assert:info-stored": 4000, "assert:info-reloaded": 4000,
                    "assert:restart-state-loaded": 1200,
@@ -259,14 +259,18 @@ def _new_controller(mon, T, case, root):
     return ctrl
 
 
-def _drive(mon, T, case, root, plan):
-    """One run of the whole history; `plan` None = uninterrupted.  Returns per-epoch records."""
+def _drive(mon, T, case, root, plan, sync=True):
+    """One run of the whole history; `plan` None = uninterrupted.  Returns per-epoch records.
+    sync=False: the optimizer is NOT initialised through the controller, so its rate differs from the
+    controller's recorded rate until the first reduction writes the new rate into it."""
     cfg, n = case["cfg"], case["n"]
     after = set(plan["after"]) if plan else set()
     mode = plan["mode"] if plan else None
     ctrl = _new_controller(mon, T, case, root)
     model, opt = G.make_model_opt(cfg, case["groups"])
-    _guard(mon, "load_model_and_optimizer_for_epoch", lambda: ctrl.load_model_and_optimizer_for_epoch(model, opt))
+    if sync:
+        _guard(mon, "load_model_and_optimizer_for_epoch",
+               lambda: ctrl.load_model_and_optimizer_for_epoch(model, opt))
     recs = []
     for e in range(1, n + 1):
         G.train_to(model, opt, e)
@@ -389,6 +393,24 @@ def _judge(case, mon, T, root, steps, rel, exact):
                       observed_type=type(got).__name__, **det)
         mon.check(r["last"] == e, "last-epoch", observed=r["last"], expected=e)
     mon.check(last_a == n, "history-length", observed=last_a, expected=n)
+    # ---- an optimizer whose own rate differs from the controller's (never initialised through it): the
+    # controller must leave it alone until a reduction happens and must then WRITE the new rate into it
+    if cfg["log10_lr"] is not None and abs(lr0 - cfg["opt_lr"]) > 1e-9 * lr0:
+        c_root = os.path.join(root, "C")
+        os.makedirs(c_root)
+        mon.cls("optimizer_rate_differs_from_controller")
+        rc, _csv_c, _loaded_c, _last_c = _drive(mon, T, case, c_root, None, sync=False)
+        reduced_yet = False
+        for e, (r, st) in enumerate(zip(rc, steps), 1):
+            reduced_yet = reduced_yet or st["reduced"]
+            want = st["lr"] if reduced_yet else cfg["opt_lr"]
+            det = dict(epoch=e, val=case["val"][:e], cfg=cfg, reduced_so_far=reduced_yet)
+            mon.check(r["cont"] == st["cont"], "decision", observed=r["cont"], expected=st["cont"], unsynced=True, **det)
+            mon.check(G.same_float(r["info"]["lr"], st["lr"], 1e-12), "lr-rule", observed=r["info"]["lr"],
+                      expected=st["lr"], unsynced=True, **det)
+            mon.check(all(G.same_float(x, want, 1e-12) for x in r["lrs"]), "lr-written-into-optimizer",
+                      observed=r["lrs"], expected=want, **det)
+        shutil.rmtree(c_root, ignore_errors=True)
     # ---- restart equivalence
     for j, plan in enumerate(case["restarts"]):
         b_root = os.path.join(root, "B%d" % j)
